@@ -28,6 +28,10 @@ pub enum Ty {
     NotSync,
     ZstA8,
     OptU32,
+    /// `Mutex<Cell<u32>>`: Send + Sync although it contains a Cell (C14 only)
+    MutexCell,
+    /// `fn(*const u8, usize) -> usize`: Send + Sync although a raw pointer appears in it (C14 only)
+    FnPtr,
 }
 
 #[derive(Clone, Copy, Debug)]
@@ -240,6 +244,7 @@ pub fn family() -> Vec<Def> {
             Add("a", U32), Add("p", NotSend), Close(Simple),
             Rm("p"), Add("c", NotSync), Close(Simple),
             Rm("c"), Add("t", Tracked), Close(Simple),
+            Rm("t"), Add("mc", MutexCell), Add("fp", FnPtr), Close(Simple),
         ],
     });
     f.push(Def {
@@ -294,6 +299,8 @@ fn add<R: truc::record::type_resolver::TypeResolver>(
         }
         Ty::ZstA8 => go!(ZstA8),
         Ty::OptU32 => go!(Option<u32>),
+        Ty::MutexCell => named::<std::sync::Mutex<std::cell::Cell<u32>>, R>(b, name, "std::sync::Mutex<std::cell::Cell<u32>>"),
+        Ty::FnPtr => named::<fn(*const u8, usize) -> usize, R>(b, name, "fn(*const u8, usize) -> usize"),
         Ty::NotSend => {
             assert!(!uninit);
             b.add_datum::<NotSend, _>(name)
@@ -312,6 +319,12 @@ pub enum Perturb {
     Size(usize),
     Align(usize),
     Uninit,
+}
+
+/// Types whose compiler-given name is not nameable from user code: recorded under an explicit name.
+fn named<T, R: truc::record::type_resolver::TypeResolver>(b: &mut NativeRecordDefinitionBuilder<R>, name: &str, type_name: &str) -> Result<DatumId, String> {
+    use truc::record::definition::builder::native::DatumDefinitionOverride;
+    b.add_datum_override::<T, _>(name, DatumDefinitionOverride { type_name: Some(type_name.to_string()), size: None, align: None, allow_uninit: None })
 }
 
 fn add_perturbed<R: truc::record::type_resolver::TypeResolver>(
@@ -350,6 +363,7 @@ fn add_perturbed<R: truc::record::type_resolver::TypeResolver>(
         Ty::NotSync => go!(NotSync),
         Ty::ZstA8 => go!(ZstA8),
         Ty::OptU32 => go!(Option<u32>),
+        Ty::MutexCell | Ty::FnPtr => panic!("no twins for the C14-only types"),
     }
     .unwrap_or_else(|e| panic!("add {}: {}", name, e))
 }
